@@ -83,7 +83,10 @@ def base_traces(versions, for_c19=False):
                                                            ("OHe", b""), ("OF[", b""), ("OF]", b"")])},
             "loom.n1/proc.200/thread.201": {"meta": meta(201, 200, "n1", cpus=[(0, 0)], req=("nosv",), extra=bd, app=2),
                                             "events": evs([_x(0, 201), ("VYc", b"", u32(1) + b"fb\0"), ("VTc", u32(1, 1)), ("VTx", u32(1, 0)),
-                                                           ("VTe", u32(1, 0)), ("OHe", b""), ("OF[", b""), ("OF]", b"")], 101)},
+                                                           ("VTe", u32(1, 0)),
+                                                           # a task type with a long label (below the 512 characters the emulator allows)
+                                                           ("VYc", b"", u32(2) + b"L" * 480 + b"\0"), ("VTc", u32(2, 2)), ("VTx", u32(2, 0)), ("VTe", u32(2, 0)),
+                                                           ("OHe", b""), ("OF[", b""), ("OF]", b"")], 101)},
         }
         # T5 (C19 only, the emulator refuses it until it is sorted): an unordered region whose events, one of them a jumbo event,
         # belong before the region; the jumbo data is all 0xff so that any mis-sized walk over it decodes absurd sizes
@@ -181,6 +184,9 @@ def meta_verdict(key, value, removed, meta, others=()):
         if any("app_id" in o["ovni"] for o in same_proc):
             return "unknown"
         return "invalid" if removed else "unknown"
+    if key == "nosv.can_breakdown":
+        # only the base trace that is emulated with -b carries it: the breakdown view needs it from every thread
+        return "invalid" if (removed or value is False) else "unknown"
     if key.startswith("ovni.require.") and removed and key != "ovni.require.ovni":
         model = key.split(".")[2]
         if any(model in o["ovni"].get("require", {}) for o in others):
